@@ -18,6 +18,8 @@
 
 #[path = "c01_local.rs"]
 mod local;
+#[path = "c01_clients.rs"]
+mod clients_emit;
 #[path = "c01_server.rs"]
 mod server;
 
@@ -444,6 +446,16 @@ pub fn run(tier: Tier) -> ! {
         total.record(order_base + i as u64, vec![b.clone()], || case.clone());
     }
 
+    // 7. block C: client-side emission
+    order_base += srv.bad.len() as u64;
+    let cl = clients_emit::run_all(tier);
+    if let Some(m) = &cl.machinery {
+        ctx.machinery(format!("client emission block: {m}"));
+    }
+    for (i, (b, case)) in cl.bad.iter().enumerate() {
+        total.record(order_base + i as u64, vec![b.clone()], || case.clone());
+    }
+
     std::panic::set_hook(prev_hook);
 
     // report violations in enumeration order
@@ -502,9 +514,9 @@ pub fn run(tier: Tier) -> ! {
     }
 
     let cap_json = |a: &[u64; 5]| -> Value { json!(local::CAP_NAMES.iter().zip(a.iter()).map(|(n, c)| (n.to_string(), json!(c))).collect::<serde_json::Map<_, _>>()) };
-    let states = st.states + srv.states;
-    let transitions = st.transitions + srv.transitions;
-    let planned_states = n_fixtures as u64 + 5 * (n_l + n_h + n_g) + raws.len() as u64 + typed.len() as u64 + srv.planned;
+    let states = st.states + srv.states + cl.calls;
+    let transitions = st.transitions + srv.transitions + cl.frames_compared;
+    let planned_states = n_fixtures as u64 + 5 * (n_l + n_h + n_g) + raws.len() as u64 + typed.len() as u64 + srv.planned + cl.calls;
     if states != planned_states && !ctx.has_violation() {
         ctx.machinery(format!("executed {states} configurations, planned {planned_states}"));
     }
@@ -524,6 +536,7 @@ pub fn run(tier: Tier) -> ! {
             "block_R_bare_headers_u64_length_classes": raws.len(),
             "block_T_builder_bodies": {"configs": typed.len(), "elements": local::ELEMS.iter().map(|e| e.name()).collect::<Vec<_>>()},
             "block_S_servers": srv.bound,
+            "block_C_clients": {"clients": clients_emit::CLIENTS, "logical_requests": cl.calls, "what": "every request-emitting API x paths {short, escaped, long} x query format codes {0,1,0x7788,0xffff} x body format codes {0,1,2,3,0x5555,0xffff} x bodies {none, empty, 1 B, 5000 B, 70 000 B} (with_formats routes), four JSON values for the JSON/BEVE/registry helpers; one long-lived connection per client"},
         },
         "alphabet": {"u8": U8C, "u16": U16C, "u32": U32C, "u64_id": U64C, "spec_encode_only": SPECC},
         "nonvacuity": {
@@ -548,6 +561,7 @@ pub fn run(tier: Tier) -> ! {
             "panics": st.panics,
             "violating_comparisons": total.total_bad,
             "server": srv.nonvacuity,
+            "client_emission": {"frames_compared": cl.frames_compared, "requests_per_api": cl.per_route},
         },
     });
     ctx.finish(
@@ -569,6 +583,7 @@ pub fn replay(case: &Value) -> Result<(), String> {
         "typed" => local::check_typed(&TypedCfg::from_json(case)?, &mut st),
         "rawhdr" => local::check_raw_header(&local::hdr_from_json(&case["hdr"])?, &mut st),
         "server" => server::replay(case)?,
+        "clients" => clients_emit::replay(case)?,
         "fixtures" => {
             let ctx = Ctx::new("C01", Tier::Quick);
             anchor_fixtures(&ctx, &mut st).1
